@@ -167,7 +167,7 @@ def run(prog, rep):
     for (un, tag) in VARIANTS:
         u = prog.unit(un)
         fv = tree_view(u.fn("p_tree_%s_remove" % tag))
-        notifs = set(p_ for p_ in fv.param_names() if "destroy" in p_)
+        notifs = set(p_ for (p_, r_) in variant_roles(fv).items() if r_ in ("kd", "vd"))        # by position, as everywhere in this module
         late = []
 
         def ns(st, b, i, stmt, late=late, notifs=notifs):
